@@ -36,7 +36,12 @@ Inductive query :=
   (* not a query: the mesh the element set was taken from (Mesh.OctTree / OctTreeDepth /
      OctTreeWithAttributeAndDepth): kind 0 point cloud, 1 line strip, 2 triangles; verts = the values of
      the attribute the tree was built on.  Element i must be mesh primitive i with that primitive's box. *)
-| QMesh (kind : nat) (verts : list pt) (idx : list nat).
+| QMesh (kind : nat) (verts : list pt) (idx : list nat)
+  (* not a query either: one element's own ClosestPoint(p) as Go computed it (gp: exact float values, x4)
+     next to the element's corners: kind 1 segment a-b (c unused), kind 2 triangle a b c of non-zero area.
+     The exact rational models seg_closest / tri_closest, about which closest_eq_brute_segments /
+     closest_eq_brute_triangles are proved, must give that point up to float rounding. *)
+| QElem (kind : nat) (a b c : pt) (p : pt) (gp : dy * dy * dy).
 
 Inductive case :=
 | COct (boxes : list box) (depth : option nat) (impl_tree : option tree) (qs : list query)
@@ -93,6 +98,11 @@ Definition ray_spec (b : box) (ry : ray) (r : Q * Q) : bool :=
   | _, _, _ => false
   end%Q.
 
+(* squared distance (model units: Go x4) allowed between Go's float64 closest point of an element and the
+   exact rational model's: 1e-12, i.e. 2.5e-7 in Go units - far above float rounding on the generated
+   coordinates (|x| <= ~1e3), far below any geometric difference *)
+Definition elem_tol : Q := 1 # 1000000000000.
+
 Definition qprop (boxes : list box) (q : query) : bool :=
   let n := length boxes in
   match q with
@@ -114,6 +124,10 @@ Definition qprop (boxes : list box) (q : query) : bool :=
       Nat.ltb i n && fpt_eqb rpt (nth i pts fzero) &&
       forallb (fun k => nth i keys 0 <=? k) keys
   | QMesh kind verts idx => list_eqb box_eqb (mesh_boxes kind verts idx) boxes
+  | QElem kind a b c p gp =>
+      let m := match kind with 1%nat => seg_closest a b p | _ => tri_closest a b c p end in
+      let '(gx, gy, gz) := gp in
+      Qle_bool (qdist2q m (dyq gx, dyq gy, dyq gz)) elem_tol
   end.
 
 Definition opt_dy_eqb (a b : option dy) : bool :=
@@ -182,6 +196,7 @@ Definition qcorr (boxes : list box) (t : tree) (q : query) : bool :=
       | None => false
       end
   | QMesh _ _ _ => true
+  | QElem _ _ _ _ _ _ => true
   end.
 
 (* the invariant (OctreeProofs.inv) as a test on the implementation's own tree: every element in or
